@@ -552,3 +552,40 @@ def run_count_specs(counts=None):
         r = "i16" if k < 200 else "i32"
         out.append(scope_spec(r, vals))
     return out
+
+
+RUN_LENGTHS_A = [1, 2, 63, 64, 65, 127, 128, 129, 255, 256, 257]
+RUN_LENGTHS_B = [1, 63, 64, 65, 128]
+
+
+def run_length_specs(pairs=None):
+    """Two-run enums whose run lengths sit on / next to powers of two (code that packs a run into a word-sized
+    mask or a narrow length field); a third single value after a wide hole keeps the enum from being a plain pair."""
+    out = []
+    for a in RUN_LENGTHS_A:
+        for b in RUN_LENGTHS_B:
+            if pairs is not None and (a, b) not in pairs:
+                continue
+            for r, start in (("i16", -70), ("u32", 3)):
+                vals = list(range(start, start + a)) + list(range(start + a + 2, start + a + 2 + b)) + [start + a + b + 1000]
+                out.append(scope_spec(r, vals))
+    return out
+
+
+NAME_TABLE_TOTALS = [(255, 5), (256, 5), (257, 5), (256, 40), (300, 40), (65535, 300), (65536, 300), (65537, 300), (70000, 260)]
+
+
+def name_table_specs(totals=None):
+    """Enums whose names' total length sits on / next to 2^8 and 2^16 bytes (packed name tables with narrow
+    offsets); the variant whose name sorts last is declared in the middle."""
+    out = []
+    for total, n in (totals or NAME_TABLE_TOTALS):
+        per = total // n
+        vs = []
+        for i in range(n):
+            nm = ("%03d" % i) + "abcdefghij"[i % 10] * (per - 3)
+            if i == n // 2:
+                nm = "zz" + nm[2:] + "z" * (total - per * n)
+            vs.append({"ident": "V%d" % i, "disc": str(i * 2 if i > n // 2 else i), "rename": nm, "rename_raw": False})
+        out.append({"repr": "u16", "vis": "pub", "ident": "E", "enum_attrs": [], "variants": vs})
+    return out
